@@ -70,7 +70,7 @@ impl Eq for Rule {}
 
 impl Hash for Rule {
     fn hash<H: Hasher>(&self, state: &mut H) {
-        self.id.hash(state);
+        // the id is not part of rule equality, so it must not be hashed either
         self.resource.hash(state);
     }
 }
